@@ -690,7 +690,8 @@ class Node(object):
         if preemption == False:
             to_delete = []
             for srvr in self.servers:
-                srvr.shift_end = self.next_event_date
+                if not srvr.offduty:
+                    srvr.shift_end = self.next_event_date
                 if srvr.busy:
                     srvr.offduty = True
                 else:
